@@ -449,7 +449,7 @@ fn run_case_full(input: &str) -> (Outcome, Vec<String>) {
                                         .collect::<String>(),
                                 );
                             }
-                            if trim_end(d.header.as_bytes()) != trim_end(h.header.as_bytes()) {
+                            if d.header.as_bytes() != h.header.as_bytes() {
                                 o = o.violation(
                                     "hunk-roundtrip",
                                     format!("headers differ: {:?} vs {:?}", h.header, d.header),
@@ -478,34 +478,62 @@ fn run_case(input: &str) -> Outcome {
     run_case_full(input).0
 }
 
+/// Independent reading of a hunk header as git writes it: `@@ -a[,b] +c[,d] @@[ text]\n` with canonical
+/// decimal numbers (no sign, no leading zeros, `,1` omitted) — does not use the code under test.
+fn git_header(h: &[u8]) -> Option<(u32, u32, u32, u32)> {
+    let s = std::str::from_utf8(h).ok()?;
+    let s = s.strip_suffix('\n')?;
+    if s.contains('\n') {
+        return None;
+    }
+    let s = s.strip_prefix("@@ -")?;
+    let (old, s) = s.split_once(" +")?;
+    let (new, text) = s.split_once(" @@")?;
+    if !(text.is_empty() || text.starts_with(' ')) {
+        return None;
+    }
+    let num = |t: &str| -> Option<u32> {
+        if t.is_empty() || !t.bytes().all(|b| b.is_ascii_digit()) || (t.len() > 1 && t.starts_with('0')) {
+            return None;
+        }
+        t.parse().ok()
+    };
+    let range = |t: &str| -> Option<(u32, u32)> {
+        match t.split_once(',') {
+            None => Some((num(t)?, 1)),
+            Some((a, b)) => {
+                let (a, b) = (num(a)?, num(b)?);
+                if b == 1 { None } else { Some((a, b)) }
+            }
+        }
+    };
+    let (a, b) = range(old)?;
+    let (c, d) = range(new)?;
+    Some((a, b, c, d))
+}
+
 /// A hunk as git produces them: header `@@ -a[,b] +c[,d] @@[ text]\n`, every line newline-terminated without
 /// interior newline, counts and line numbers consistent with the header.
 fn well_formed(h: &Hunk<Modification>) -> bool {
-    let Ok(hh) = HunkHeader::from_bytes(h.header.as_bytes()) else { return false };
-    if !h.header.as_bytes().ends_with(b"\n") || h.header.as_bytes().iter().filter(|b| **b == b'\n').count() != 1 {
-        return false;
-    }
-    // canonical number formatting (what git writes)
-    let mut canon = HunkHeader { text: vec![], ..hh.clone() }.to_unified_string().unwrap_or_default();
-    canon.pop();
-    if !h.header.as_bytes().starts_with(canon.as_bytes()) {
+    let Some((old_no, old_size, new_no, new_size)) = git_header(h.header.as_bytes()) else { return false };
+    if old_no as u64 + old_size as u64 + 1 >= 1 << 32 || new_no as u64 + new_size as u64 + 1 >= 1 << 32 {
         return false;
     }
     let (mut o, mut n) = (0u32, 0u32);
     for l in &h.lines {
         let (line, ok) = match l {
             Modification::Addition(a) => {
-                let ok = a.line_no == hh.new_line_no + n;
+                let ok = a.line_no == new_no + n;
                 n += 1;
                 (a.line.as_bytes(), ok)
             }
             Modification::Deletion(d) => {
-                let ok = d.line_no == hh.old_line_no + o;
+                let ok = d.line_no == old_no + o;
                 o += 1;
                 (d.line.as_bytes(), ok)
             }
             Modification::Context { line, line_no_old, line_no_new } => {
-                let ok = *line_no_old == hh.old_line_no + o && *line_no_new == hh.new_line_no + n;
+                let ok = *line_no_old == old_no + o && *line_no_new == new_no + n;
                 o += 1;
                 n += 1;
                 (line.as_bytes(), ok)
@@ -514,8 +542,11 @@ fn well_formed(h: &Hunk<Modification>) -> bool {
         if !ok || !line.ends_with(b"\n") || line.iter().filter(|b| **b == b'\n').count() != 1 {
             return false;
         }
+        if o > old_size || n > new_size {
+            return false;
+        }
     }
-    o == hh.old_size && n == hh.new_size
+    o == old_size && n == new_size
 }
 
 // ---------------------------------------------------------------------------------------------
